@@ -60,3 +60,22 @@ Definition doc_valid (j : json) : bool :=
 
 (* `load` accepts the document *)
 Definition accepted (j : json) : bool := match load j with Ok _ => true | Err _ => false end.
+
+(* the structural part of the schema: an array of strings and objects, objects with known keys and a name *)
+Definition item_structure_ok (j : json) : bool :=
+  match j with
+  | JStr _ => true
+  | JObj kv => forallb (fun p => existsb (str_eqb (fst p)) config_keys) kv && has_key k_name kv
+  | _ => false
+  end.
+Definition structure_ok (j : json) : bool := match j with JArr l => forallb item_structure_ok l | _ => false end.
+
+(* an item that uses `options` (non-empty object) together with a non-empty group_options / context_options object *)
+Definition item_exclusive_clash (j : json) : bool :=
+  match j with
+  | JObj kv =>
+      match jassoc k_options kv with Some o => j_nonempty_obj o | None => false end
+      && (match jassoc k_group_options kv with Some o => j_nonempty_obj o | None => false end
+          || match jassoc k_context_options kv with Some o => j_nonempty_obj o | None => false end)
+  | _ => false
+  end.
